@@ -453,6 +453,20 @@ CH_PACKAGE = {
 }
 
 
+# a Struct expansion whose source is a field of another expanded struct, declared in both orders: acceptance must not
+# depend on the order of the declaration (repaired)
+NESTED_STRUCT = {
+    "k.go": 'package main\n\nimport "github.com/mazrean/kessoku"\n\ntype Port int\ntype DBConfig struct{ Port Port }\ntype Config struct{ DB *DBConfig }\ntype App struct{ P Port }\n\nfunc NewConfig() *Config { return &Config{DB: &DBConfig{Port: 5}} }\nfunc NewApp(p Port) *App { return &App{P: p} }\n\nvar _ = kessoku.Inject[*App]("InitA", kessoku.Provide(NewConfig), kessoku.Struct[*Config](), kessoku.Struct[*DBConfig](), kessoku.Provide(NewApp))\nvar _ = kessoku.Inject[*App]("InitB", kessoku.Provide(NewConfig), kessoku.Struct[*DBConfig](), kessoku.Struct[*Config](), kessoku.Provide(NewApp))\n\nfunc main() {\n\tif InitA().P != 5 || InitB().P != 5 {\n\t\tpanic("wrong result")\n\t}\n}\n',
+}
+
+
+# a Bind whose provider has no result implementing the interface (value returned, pointer-receiver methods) binds nothing:
+# the declaration must not be turned into an injector that takes the interface as a parameter (repaired: now reported)
+BIND_NOTHING = {
+    "k.go": 'package main\n\nimport "github.com/mazrean/kessoku"\n\ntype Repo interface{ Get() string }\ntype repo struct{ s string }\n\nfunc (r *repo) Get() string { return r.s }\n\nfunc NewRepo() repo { return repo{s: "r"} }\n\ntype App struct{ R Repo }\n\nfunc NewApp(r Repo) *App { return &App{R: r} }\n\nvar _ = kessoku.Inject[*App]("InitApp", kessoku.Bind[Repo](kessoku.Provide(NewRepo)), kessoku.Provide(NewApp))\n\nfunc main() {}\n',
+}
+
+
 def write_pkg(mod, name, files):
     d = os.path.join(mod, name)
     os.makedirs(d, exist_ok=True)
@@ -527,6 +541,9 @@ def _stage(seed, tier, key="N-x"):
     pkgs.append(("suffix_sibling", dict(stage_det.SUFFIXNAME, **{"main.go": "package main\n\nfunc main() {}\n"}), ["k.go"], None,
                  dict(kind="a sibling source whose name ends in the target's name", expect_funcs={"k_band.go": ["InitApp"]})))
     pkgs.append(("ctx_alias", CTX_ALIAS, ["k.go"], None, dict(kind="an alias of context.Context among the requirements", run=True, expect_params={"k_band.go": {"InitApp": ["Ctx"]}})))
+    pkgs.append(("nested_struct_order", NESTED_STRUCT, ["k.go"], None, dict(kind="nested Struct expansions in both declaration orders", run=True, expect_accept=True,
+                                                                                 expect_funcs={"k_band.go": ["InitA", "InitB"]})))
+    pkgs.append(("bind_nothing", BIND_NOTHING, ["k.go"], None, dict(kind="a Bind that binds nothing", expect_not_generated=["InitApp"])))
     pkgs.append(("xset", XSET, ["k.go"], "KF-C10-1", dict(kind="known finding reproducer (Set of another package)", signature="no vet signature: the file compiles",
                                                        expect_params={"k_band.go": {"InitB": []}}, known_params={"k_band.go": {"InitB": ["*prov.A"]}})))
     pkgs.append(("known_KF_C04_3", CH_PACKAGE, ["k.go"], "KF-C04-3", dict(kind="known finding reproducer", signature=r"ch\.Client is not a type")))
